@@ -336,6 +336,67 @@ def build (b : Builder) (inputGates : List Nat) (panicWires outs : List Nat) : C
     gates := .xor 0 0 :: .not (b.shift - 2) :: (compact b.shift used b.gates).map (convGate b.shift)
     outputGates := panicWires.map f ++ outs.map f }
 
+
+/-! ### the panic record (circuit.rs:646-758) -/
+
+/-- the 161 wires of a `PanicResult` (flag, then reason / start line / start column / end line /
+end column, 32 wires each) and the conditions already folded into it (`CachedPanicResult`) -/
+structure PanicSt where
+  wires : List Nat
+  cache : List Nat
+
+/-- `unsigned_as_usize_bits`: 32 constant wires (0/1), most significant first -/
+def usizeWires (n : Nat) : List Nat := (List.range 32).map fun i => n / 2 ^ (31 - i) % 2
+
+/-- `PanicResult::ok()` -/
+def PanicSt.ok : PanicSt :=
+  { wires := 0 :: (usizeWires 1 ++ usizeWires 0 ++ usizeWires 0 ++ usizeWires 0 ++ usizeWires 0), cache := [] }
+
+def PanicSt.flag (p : PanicSt) : Nat := p.wires.headD 0
+def PanicSt.reason (p : PanicSt) : List Nat := (p.wires.drop 1).take 32
+def PanicSt.startLine (p : PanicSt) : List Nat := (p.wires.drop 33).take 32
+def PanicSt.startCol (p : PanicSt) : List Nat := (p.wires.drop 65).take 32
+def PanicSt.endLine (p : PanicSt) : List Nat := (p.wires.drop 97).take 32
+def PanicSt.endCol (p : PanicSt) : List Nat := (p.wires.drop 129).take 32
+
+/-- `push_mux` over two equally long wire lists, left to right -/
+def muxWires (b : Builder) (s : Nat) : List Nat → List Nat → List Nat × Builder
+  | x :: xs, y :: ys =>
+    let (w, b) := b.mux s x y
+    let (ws, b) := muxWires b s xs ys
+    (w :: ws, b)
+  | _, _ => ([], b)
+
+/-- `[a0, b0, c0, d0, a1, b1, …]` -/
+def interleave4 {α} : List α → List α → List α → List α → List α
+  | a :: as, b :: bs, c :: cs, d :: ds => a :: b :: c :: d :: interleave4 as bs cs ds
+  | _, _, _, _ => []
+
+def deinterleave4 {α} : List α → List α × List α × List α × List α
+  | a :: b :: c :: d :: rest =>
+    let (as, bs, cs, ds) := deinterleave4 rest
+    (a :: as, b :: bs, c :: cs, d :: ds)
+  | _ => ([], [], [], [])
+
+/-- `push_panic_if(cond, reason, meta)`; a condition that is already part of the record is a
+no-op. The Rust loop muxes, for each `i`, start line, start column, end line, end column (in this
+order) and afterwards the 32 reason wires. -/
+def pushPanicIf (b : Builder) (p : PanicSt) (cond reason l0 c0 l1 c1 : Nat) : Builder × PanicSt :=
+  if p.cache.contains cond then (b, p) else
+  let already := p.flag
+  let (flag, b) := b.or p.flag cond
+  let (loc, b) := muxWires b already (interleave4 p.startLine p.startCol p.endLine p.endCol)
+    (interleave4 (usizeWires l0) (usizeWires c0) (usizeWires l1) (usizeWires c1))
+  let (sl, sc, el, ec) := deinterleave4 loc
+  let (rs, b) := muxWires b already p.reason (usizeWires reason)
+  (b, { wires := flag :: (rs ++ sl ++ sc ++ el ++ ec), cache := cond :: p.cache })
+
+/-- `mux_uncached_panic` (flag, reason, start line, start column, end line, end column — the order
+of the record) + the merge of the caches in `mux_panic` (conditions known on both paths) -/
+def muxPanic (b : Builder) (s : Nat) (t f : PanicSt) : Builder × PanicSt :=
+  let (ws, b) := muxWires b s t.wires f.wires
+  (b, { wires := ws, cache := t.cache.filter f.cache.contains })
+
 /-! ### Semantics -/
 
 def gateVal (vs : List Bool) : BGate → Bool
